@@ -442,25 +442,35 @@ def pipeline(facts):
     import difflib
     from .passorder import show as pshow
     pl = pass_pipeline(facts)
-    seqs = {}
-    for value in (False, True):
-        ref = None
-        for calls in pl.paths[value]:
-            cur = item_passes(facts, calls)
-            if ref is not None and [n for n, c, a in cur] != [n for n, c, a in ref]:
-                raise AnalysisError('the pass sequence of assemble differs between paths with the same compress value')
-            ref = cur
-        seqs[value] = ref or []
-    a, b = seqs[False], seqs[True]
+    def union(paths):
+        """Supersequence of the pass sequences of several paths: [(entry, on every path?)]."""
+        merged = None
+        for calls in paths:
+            cur = [(e, True) for e in item_passes(facts, calls)]
+            if merged is None:
+                merged = cur
+                continue
+            sm_ = difflib.SequenceMatcher(a=[e[0] for e, _ in merged], b=[e[0] for e, _ in cur], autojunk=False)
+            nxt = []
+            for tag, i1, i2, j1, j2 in sm_.get_opcodes():
+                if tag == 'equal':
+                    nxt.extend(merged[i1:i2])
+                else:
+                    nxt.extend((e, False) for e, _ in merged[i1:i2])
+                    nxt.extend((e, False) for e, _ in cur[j1:j2])
+            merged = nxt
+        return merged or []
+    a, b = union(pl.paths[False]), union(pl.paths[True])
     out = []
-    sm = difflib.SequenceMatcher(a=[n for n, c, x in a], b=[n for n, c, x in b], autojunk=False)
+    sm = difflib.SequenceMatcher(a=[e[0] for e, _ in a], b=[e[0] for e, _ in b], autojunk=False)
 
-    def row(e, guard):
-        name, c, x = e
-        return (name, guard, c.node, [pshow(x) for x in c.args], None)
+    def row(entry, guard):
+        (name, c, x), everywhere = entry
+        # a pass that runs on some but not all evaluated paths with the same compress value depends on something else as well
+        return (name, guard if everywhere else guard + ' and <another condition>', c.node, [pshow(y) for y in c.args], None)
     for tag, i1, i2, j1, j2 in sm.get_opcodes():
         if tag == 'equal':
-            out.extend(row(c, 'always') for c in b[j1:j2])
+            out.extend(row((e, ea and eb), 'always') for (e, eb), (_, ea) in zip(b[j1:j2], a[i1:i2]))
         else:
             out.extend(row(c, 'not compress') for c in a[i1:i2])
             out.extend(row(c, 'compress') for c in b[j1:j2])
